@@ -757,15 +757,8 @@ func (c *Compiler) compileSlice(node *ast.Slice) error {
 	if err := c.compile(node.Left()); err != nil {
 		return err
 	}
-	to := node.ToIndex()
-	if to == nil {
-		c.emit(op.Copy, 0)
-		c.emit(op.Length)
-	} else {
-		if err := c.compile(to); err != nil {
-			return err
-		}
-	}
+	// The bounds are evaluated left to right (start, then stop); the Slice
+	// instruction expects the stop below the start, so they are swapped.
 	from := node.FromIndex()
 	if from == nil {
 		c.emit(op.LoadConst, c.constant(int64(0)))
@@ -774,6 +767,16 @@ func (c *Compiler) compileSlice(node *ast.Slice) error {
 			return err
 		}
 	}
+	to := node.ToIndex()
+	if to == nil {
+		c.emit(op.Copy, 1) // the container, now below the start
+		c.emit(op.Length)
+	} else {
+		if err := c.compile(to); err != nil {
+			return err
+		}
+	}
+	c.emit(op.Swap, 1)
 	c.emit(op.Slice)
 	return nil
 }
@@ -951,23 +954,28 @@ func (c *Compiler) compileConst(node *ast.Const) error {
 }
 
 func (c *Compiler) compileIn(node *ast.In) error {
-	if err := c.compile(node.Right()); err != nil {
-		return err
-	}
+	// Operands are evaluated left to right; ContainsOp expects the container
+	// below the item, so the two are swapped afterwards.
 	if err := c.compile(node.Left()); err != nil {
 		return err
 	}
+	if err := c.compile(node.Right()); err != nil {
+		return err
+	}
+	c.emit(op.Swap, 1)
 	c.emit(op.ContainsOp, 0)
 	return nil
 }
 
 func (c *Compiler) compileNotIn(node *ast.NotIn) error {
-	if err := c.compile(node.Right()); err != nil {
-		return err
-	}
+	// see compileIn
 	if err := c.compile(node.Left()); err != nil {
 		return err
 	}
+	if err := c.compile(node.Right()); err != nil {
+		return err
+	}
+	c.emit(op.Swap, 1)
 	c.emit(op.ContainsOp, 0)
 	c.emit(op.UnaryNot)
 	return nil
